@@ -13,7 +13,9 @@ MANIFEST = {
     "text": "Each generated input is analysed repeatedly by the real binary in fresh processes (fresh hash seeds; alternating check "
             "order) with all checks enabled; TLC validates the runs against the observation machine Determinism.tla (every run must "
             "reproduce the first run's complete output) and model-checks why sorting suffices (all arrival orders of all bags of <= 4 "
-            "records) and that last-wins de-duplication is order-dependent. Nondeterminism that needs rarer schedules is only sampled.",
+            "records) and that last-wins de-duplication is order-dependent. Inputs whose optimised IR (--debug ir-opt) differs between fresh "
+            "processes get 8x as many full runs (search heuristic; the verdict is on the warning output only). Nondeterminism that "
+            "needs rarer schedules is only sampled.",
     "note": "Trusted: TLC, generators, stdout digest (FNV-1a over the raw bytes) in harness/src/cli.rs.",
     "technique": "TLA+ observation machine; TLC trace validation of repeated real CLI runs + model checking of order-insensitivity",
     "design_ref": "DESIGN.md section 6, C23",
